@@ -34,6 +34,7 @@ type World struct {
 	specSMT   string
 	specDefs  map[string]string
 	trustedPure map[string]bool
+	freshOverrides map[string]*freshOverride
 	mutated   map[string]bool // globals assigned outside init
 	mutScan   bool
 	repo      string
@@ -51,7 +52,7 @@ func (w *World) constID(key string) int {
 func loadWorld(repo string, patterns []string) (*World, error) {
 	w := &World{contracts: map[string]*Contract{}, ghosts: map[string]*GhostVar{}, specFuncs: map[string]*SpecFunc{},
 		lemmas: map[string]*Lemma{}, constIDs: map[string]int{}, files: map[*token.File]*ast.File{},
-		srcCache: map[string][]byte{}, allPkgs: map[string]*packages.Package{}, repo: repo, trustedPure: map[string]bool{}}
+		srcCache: map[string][]byte{}, allPkgs: map[string]*packages.Package{}, repo: repo, trustedPure: map[string]bool{}, freshOverrides: map[string]*freshOverride{}}
 	w.fset = token.NewFileSet()
 	cfg := &packages.Config{Mode: packages.LoadAllSyntax, Dir: repo, BuildFlags: []string{"-tags=verif"}, Fset: w.fset,
 		Env: append(os.Environ(), "GOFLAGS=-mod=mod", "GOPROXY=off", "GOSUMDB=off", "GOTOOLCHAIN=local")}
@@ -370,7 +371,7 @@ func (w *World) inlinable(fn *ssa.Function, depth int) bool {
 			}
 		}
 	}
-	return n <= 120
+	return n <= 250
 }
 
 func (w *World) fileOf(pos token.Pos) *ast.File {
@@ -529,4 +530,34 @@ func (w *World) constString(p *packages.Package, e ast.Expr) (string, bool) {
 		return w.constString(p, pe.X)
 	}
 	return "", false
+}
+
+// zeroGlobal: package-level variable declared without initialiser and never assigned.
+func (w *World) zeroGlobal(g *ssa.Global) bool {
+	w.scanMutated()
+	key := g.Pkg.Pkg.Path() + "." + g.Name()
+	if w.mutated[key] {
+		return false
+	}
+	p := w.allPkgs[g.Pkg.Pkg.Path()]
+	if p == nil {
+		return false
+	}
+	for _, f := range p.Syntax {
+		for _, d := range f.Decls {
+			gd, ok := d.(*ast.GenDecl)
+			if !ok || gd.Tok != token.VAR {
+				continue
+			}
+			for _, sp := range gd.Specs {
+				vs := sp.(*ast.ValueSpec)
+				for _, n := range vs.Names {
+					if n.Name == g.Name() {
+						return len(vs.Values) == 0
+					}
+				}
+			}
+		}
+	}
+	return false
 }
